@@ -339,6 +339,10 @@ def comp_case(rng, kind=None):
     # who carries the limit: the composition (slot_memory_limit) or the slot itself (its own memory_limit, while the
     # composition's default limit is None or generous); the location always comes from the composition
     c["own_limit"] = rng.choice([None, None, "none", "generous"])
+    # what a source may legally do besides one publication per step: publish twice for one time stamp (a provisional and a
+    # corrected field), and publish an end-of-run state from its own `_finalize`
+    c["republish"] = rng.random() < 0.2 and c["kind"] not in ("linear", "avg", "sum")   # (interpolating between two publications of one time stamp divides by zero: not this property's business)
+    c["final_publish"] = rng.random() < 0.3
     return c
 
 
@@ -380,6 +384,18 @@ def run_composition(case, location, limit):
             if slot_limit is not None and case["kind"] == "output":
                 self.outputs["Out"].memory_limit = slot_limit   # configured individually, before the hand-over
 
+        def _update(self):
+            super()._update()
+            if case.get("republish"):
+                k = (self.time - EPOCH) // day
+                self.outputs["Out"].push_data(payload_of(case, [float((k * (c + 2)) % 7 - 2) for c in range(nc)], dshape), self.time)
+
+        def _finalize(self):
+            if case.get("final_publish"):
+                k = (self.time - EPOCH) // day + 1
+                self.outputs["Out"].push_data(payload_of(case, [float((k * (c + 2)) % 7 - 3) for c in range(nc)], dshape), self.time + day)
+            super()._finalize()
+
     src = Gen(
         {"Out": (gen, fm.Info(time=None, grid=grid, units=case["units"], **info_kw))}, start=EPOCH, step=day)
     cons = fm.components.CallbackComponent(
@@ -419,7 +435,7 @@ def comp_oracle(case, location):
     if a["outside"]:
         return ("spill files are created only below slot_memory_location",
                 {"outside_location": a["outside"][:5], "limit": case["limit"]}), a
-    if a["left"]:
+    if a["left"] and a["err"] is None:     # (a run that ended with an error was not finalised)
         return ("after the composition has been finalised no spill file remains below slot_memory_location",
                 {"left_behind": a["left"], "limit": case["limit"]}), a
     if b["left"]:
@@ -533,7 +549,7 @@ def run(ctx, res):
                        "are requested over positive-length intervals after the first request",
                        "values under the mask are not compared with the model (the mask and the unmasked values are)"]
     cases = corpus() + [gen_case(ctx.rng, ctx.n(24, 40)) for _ in range(ctx.n(400, 5000))]
-    comps = comp_corpus() + [comp_case(ctx.rng) for _ in range(ctx.n(24, 400))]
+    comps = comp_corpus() + [comp_case(ctx.rng) for _ in range(ctx.n(80, 600))]
     check_cases(ctx, cases, comps, res)
 
 
